@@ -697,9 +697,14 @@ func HashMapOfValueCopy(vm *Thread, target *HashMapOfValue, source *HashMapOfVal
 		if i == -1 {
 			panic("no room in target hashmap during copy")
 		}
+		if existing := target.Table[i]; existing.Key().IsUndefined() {
+			// a new key, count it (a reused slot of a deleted pair is already occupied)
+			if existing.Value().IsUndefined() {
+				target.OccupiedSlots++
+			}
+			target.Elements++
+		}
 		target.Table[i] = entry
-		target.OccupiedSlots++
-		target.Elements++
 	}
 
 	return value.Undefined
@@ -720,9 +725,14 @@ func HashMapOfValueCopyInterface(vm *Thread, target *HashMapOfValue, source Hash
 		if i == -1 {
 			panic("no room in target hashmap during copy")
 		}
+		if existing := target.Table[i]; existing.Key().IsUndefined() {
+			// a new key, count it (a reused slot of a deleted pair is already occupied)
+			if existing.Value().IsUndefined() {
+				target.OccupiedSlots++
+			}
+			target.Elements++
+		}
 		target.Table[i] = entry
-		target.OccupiedSlots++
-		target.Elements++
 	}
 
 	return value.Undefined
